@@ -23,11 +23,12 @@ from .c06 import ScriptGen, push, pushnum, parse_ops, stack_arg, parse_stack_arg
 class C07(Prop, ScriptGen):
     id = 'C07'
     title = 'Script verification is total, contained and side-effect free on any input'
-    lean_targets = ['BtcVerif.Props.C07']
+    lean_targets = ['BtcVerif.Props.C07', 'BtcVerif.Props.C06Concrete']
     table_groups = ['Opcodes']
     theorems = ['BtcVerif.C07.' + t for t in (
         'verify_total', 'only_known_findings', 'verify_contained', 'error_state_limits', 'eval_contained',
-        'eval_state_limits')]
+        'eval_state_limits')] + ['BtcVerif.C06.Concrete.verify_contained_real',
+                                 'BtcVerif.C06.Concrete.error_state_limits_real']
     anchors = [('bitcoin/core/scripteval.py', f) for f in (
         'EvalScript', 'VerifyScript', '_EvalScript', '_CheckMultiSig', '_CheckSig', 'EvalScriptError',
         'MissingOpArgumentsError', 'ArgumentsInvalidError', 'VerifyOpFailedError')] + \
